@@ -19,7 +19,7 @@ from koala import example_graphs as eg
 DRIVERS = ("c06",)
 TRANSLATORS = ("ansatz",)
 MODEL_TARGETS = ["Model/AStar.vo", "Model/FluxSolver.vo", "Gen/AnsatzGen.vo"]
-TARGETS = ["Proofs/AStarFacts.vo", "Proofs/ChainFlipFacts.vo", "Proofs/FluxSolverFacts.vo", "Proofs/AnsatzFacts.vo"]
+TARGETS = ["Proofs/AStarFacts.vo", "Proofs/AStarOptimal.vo", "Proofs/AStarBudget.vo", "Proofs/ChainFlipFacts.vo", "Proofs/FluxSolverFacts.vo", "Proofs/AnsatzFacts.vo"]
 LEVEL = "proof"
 TRUST = [
     "hand-written Gallina model coq/Model/FluxSolver.v of flux_finder.py (fluxes_from_ujk, fluxes_from_bonds, _flip_adjacent_fluxes, _flip_isolated_fluxes, "
@@ -87,7 +87,7 @@ def c06_lattice_cases(tier, seed):
                     ("honeycomb_lattice", [4]), ("square_lattice", [4, 7]), ("hex_square_oct_lattice", [3]), ("tri_non_lattice", [3])]
     for name, args in tilings:
         cases.append({"family": "example", "name": name, "args": args})
-    nv = 12 if tier == "quick" else 60
+    nv = 20 if tier == "quick" else 120
     nmax = 200 if tier == "quick" else 400
     for i in range(nv):
         style = gen.POINT_STYLES[i % 4]
@@ -114,7 +114,7 @@ def targets_for(lat, rng, tier, exhaustive_max):
             t = np.array([1 - 2 * ((mask >> i) & 1) for i in range(F)], dtype=np.int8)
             out.append((t, None if mask % 2 else g))
     else:
-        k = 6 if tier == "quick" else 16
+        k = 6 if tier == "quick" else 24
         for j in range(k):
             dens = [0.03, 0.1, 0.5, 0.9, 0.97, 0.5][j % 6]
             t = np.where(rng.uniform(size=F) < dens, -1, 1).astype(np.int8 if j % 2 == 0 else np.int64)
@@ -168,9 +168,59 @@ def ser_solve(lat, conv, target, guess, calls):
     return " ".join(toks)
 
 
+def own_wf(lat):
+    """Python restatement of fs_wf: every plaquette contains edge e exactly as often as e lists it as a side"""
+    cnt = {}
+    for q, p in enumerate(lat.plaquettes):
+        if not np.all((np.asarray(p.directions) == 1) | (np.asarray(p.directions) == -1)):
+            return False
+        for e in p.edges:
+            if not (0 <= int(e) < lat.n_edges):
+                return False
+            cnt[(int(e), q)] = cnt.get((int(e), q), 0) + 1
+    sides = {}
+    for e, (a, b) in enumerate(lat.edges.adjacent_plaquettes):
+        for x in (a, b):
+            if x != INVALID:
+                if not (0 <= int(x) < lat.n_plaquettes):
+                    return False
+                sides[(e, int(x))] = sides.get((e, int(x)), 0) + 1
+    return cnt == sides
+
+
+def check_wf(ctx, case, lat, label):
+    """hypothesis fs_wf of the solver contract, on the implementation's tables (once per lattice)"""
+    res = ctx.res
+    if not own_wf(lat):
+        ctx.k_mismatch(f"{label}: the (plaquettes, adjacent_plaquettes) tables are not well-formed (an edge is not listed on a plaquette as often as the plaquette is a side of it)", {"lattice": case})
+        return False
+    st = res.extra.setdefault("fs_wf_checked", {"extracted_checker": 0, "python_restatement_only_large": 0})
+    if lat.n_plaquettes * lat.n_edges > 150000:      # the extracted checker is O(F*E) on unary nat
+        st["python_restatement_only_large"] += 1
+        return True
+    toks = ["wf", str(lat.n_plaquettes)]
+    for p in lat.plaquettes:
+        toks.append(str(len(p.edges)))
+        for e, d in zip(p.edges, p.directions):
+            toks += [str(int(e)), hx(int(d))]
+    toks.append(str(lat.n_edges))
+    for a, b in lat.edges.adjacent_plaquettes:
+        toks += ["N" if a == INVALID else str(int(a)), "N" if b == INVALID else str(int(b))]
+    o = run_driver(ctx.exe["c06"], [" ".join(toks)])[0]
+    if "error" in o:
+        raise RuntimeError(f"c06 driver wf: {' '.join(o['error'])}")
+    st["extracted_checker"] += 1
+    if o["wf"][0] != "1":
+        ctx.k_mismatch(f"{label}: fs_wf rejects the implementation's (plaquettes, adjacent_plaquettes) tables", {"lattice": case})
+        return False
+    return True
+
+
 def eval_lattice(ctx, case, lat, combos, label):
     res = ctx.res
     lines, metas = [], []
+    if not check_wf(ctx, case, lat, label):
+        return
     stats = res.extra.setdefault("defect_histogram", {})
     for conv in (0, 1):
         sname = SOLVERS[conv][0]
@@ -229,9 +279,6 @@ def eval_lattice(ctx, case, lat, combos, label):
         if "error" in o:
             raise RuntimeError(f"c06 driver: {' '.join(o['error'])}")
         res.traces += 1
-        if o["wf"][0] != "1":
-            ctx.k_mismatch(f"{label}: fs_wf rejects the implementation's (plaquettes, adjacent_plaquettes) tables", rcase)
-            continue
         if o["pairing_ok"][0] != "1":
             ctx.k_mismatch(f"{label}: captured pairing {[(c[0], c[1]) for c in calls]} is not a perfect matching of the defects {o['defects'][1:]} minus the last when odd (fs_pairing_ok)", rcase)
         if any(x != "1" for x in o["paths_ok"][1:]):
@@ -289,10 +336,12 @@ def proper_colouring(lat, col):
 
 def eval_amorphous(ctx, tier):
     res = ctx.res
-    seeds = [1, 2] if tier == "quick" else [1, 2, 3, 4, 5, 6]
+    seeds = [1, 2] if tier == "quick" else list(range(1, 13))
     for L in range(3, 9):
         for obc in (False, True):
-            for sd in seeds:
+            # corpus of earlier failures first: (3, open, seed 3) and (6, open, seed 14) raise PathFindingError on the unchanged tree
+            corpus = [3] if (L == 3 and obc) else [14] if (L == 6 and obc) else []
+            for sd in corpus + [x for x in seeds if x not in corpus]:
                 if tier == "quick" and L >= 7 and sd > 1:
                     continue
                 rcase = {"make_amorphous": {"length": L, "open_boundary_conditions": obc, "seed": sd}}
@@ -301,7 +350,22 @@ def eval_amorphous(ctx, tier):
                     lat, col, ujk = eg.make_amorphous(L, open_boundary_conditions=obc, rng=np.random.default_rng(sd))
                     lat2, col2, ujk2 = eg.make_amorphous(L, open_boundary_conditions=obc, rng=np.random.default_rng(sd))
                 except Exception as e:
-                    res.violation("make_amorphous-raised", f"make_amorphous({L}, open_boundary_conditions={obc}, rng=default_rng({sd})) raised {type(e).__name__}: {e}", rcase)
+                    key = "make_amorphous-raised"
+                    extra = ""
+                    if obc and isinstance(e, pf.PathFindingError):
+                        # rebuild the lattice the constructor was working on (same generator state) and look at its plaquette graph
+                        try:
+                            from koala import voronization
+                            from koala.lattice import cut_boundaries
+                            pts = np.random.default_rng(sd).uniform(size=(L**2, 2))
+                            cl = cut_boundaries(voronization.generate_lattice(pts, shift_vertices=True))
+                            nc = plaq_components(cl)
+                            if nc > 1:
+                                key = "make_amorphous-open:disconnected-plaquette-graph"
+                                extra = f" -- the cut lattice has {cl.n_plaquettes} plaquettes in {nc} components of the plaquette-adjacency graph"
+                        except Exception:
+                            pass
+                    res.violation(key, f"make_amorphous({L}, open_boundary_conditions={obc}, rng=default_rng({sd})) raised {type(e).__name__}: {e}{extra}", rcase)
                     continue
                 same = (np.array_equal(lat.vertices.positions, lat2.vertices.positions) and np.array_equal(lat.edges.indices, lat2.edges.indices)
                         and np.array_equal(lat.edges.crossing, lat2.edges.crossing) and np.array_equal(col, col2) and np.array_equal(ujk, ujk2))
@@ -355,16 +419,16 @@ def run(ctx):
     quick = ctx.tier == "quick"
     ctx.res.rule = ("lattices: tilings (size >= 2), periodic Voronoi (9..200 seeds quick / ..400 thorough, 4 point styles, both shift settings), their x/y/xy cuts, example graphs; "
                     "only lattices whose plaquette-adjacency graph is connected; per lattice x {ujk_from_fluxes, find_flux_sector}: default arguments, all 2^F targets when F <= "
-                    f"{8 if quick else 10} (alternating default / random guess), else random sparse/dense targets (int8 and int64) with random guesses; "
-                    "make_amorphous L=3..8 both boundary conditions, 2 (quick) / 6 seeds; non-trivial = at least 2 plaquettes have to change")
+                    f"{9 if quick else 10} (alternating default / random guess), else random sparse/dense targets (int8 and int64) with random guesses; "
+                    "make_amorphous L=3..8 both boundary conditions, 2 (quick) / 12 seeds + the two recorded failing seeds; non-trivial = at least 2 plaquettes have to change")
     eval_ansatz_table(ctx)
-    evaluate(ctx, c06_lattice_cases(ctx.tier, ctx.seed), "K(solver)", 8 if quick else 10)
+    evaluate(ctx, c06_lattice_cases(ctx.tier, ctx.seed), "K(solver)", 9 if quick else 10)
     eval_amorphous(ctx, ctx.tier)
 
 
 def search(ctx):
     eval_ansatz_table(ctx)
-    evaluate(ctx, c06_lattice_cases(ctx.tier, ctx.seed + 1), "search", 8 if ctx.tier == "quick" else 10)
+    evaluate(ctx, c06_lattice_cases(ctx.tier, ctx.seed + 1), "search", 9 if ctx.tier == "quick" else 10)
     eval_amorphous(ctx, ctx.tier)
 
 
